@@ -1140,10 +1140,12 @@ theorem lookupField_eq_some_iff {ts : List TypeDef} (hd : Distinct ts) {i f : Na
     exact findField_of_mem (hd.2 d hd') hpf
 
 theorem validSchema_of_rules {doc : Doc} {q : Name} {qd : TypeDef} (hblocks : doc.schemaBlocks = [q])
-    (hq : findType doc.types q = some qd) (hqi : qd.isInterface = false) (hqb : isBuiltin q = false)
-    (hd : Distinct doc.types) (hr : CheckedRules doc.types qd) : ValidSchema doc := by
+    (hq : findType doc.types q = some qd) (hqi : qd.isInterface = false) (hl : LoopOK doc)
+    (hr : CheckedRules doc.types qd) : ValidSchema doc := by
   obtain ⟨hT, hN, hR, hI, hRoot, hA, hU⟩ := hr
+  have hd : Distinct doc.types := hl.distinct
   have hqd := findType_some hq
+  have hqb : isBuiltin q = false := by rw [← hqd.2]; exact hl.typesNotBuiltin qd hqd.1
   have hnd := hd.1
   refine
     { queryType := ⟨q, hblocks, qd, hqd.1, hqd.2, hqi⟩
@@ -1161,7 +1163,11 @@ theorem validSchema_of_rules {doc : Doc} {q : Name} {qd : TypeDef} (hblocks : do
       edgesNotNested := ?_
       rootFieldsAreEdges := ?_
       acyclic := hA
-      unambiguousOrigins := hU }
+      unambiguousOrigins := hU
+      builtinsNotRedefined := ⟨hl.typesNotBuiltin, hl.scalarsNotBuiltin⟩
+      directivesDistinct := hl.directivesNodup
+      scalarsDistinct := hl.scalarsNodup
+      paramsDistinct := hl.paramsDistinct }
   · intro t ht i hi
     obtain ⟨d, hfd, hdi, _⟩ := hT t ht i hi
     exact ⟨d, (findType_some hfd).1, (findType_some hfd).2, hdi⟩
@@ -1252,61 +1258,175 @@ theorem rules_of_validSchema {doc : Doc} {q : Name} {qd : TypeDef} (hblocks : do
 
 /-! ### `Schema::new` under the guard -/
 
+/-- A valid schema passes the first loop. -/
+theorem loopOK_of_validSchema {doc : Doc} (hv : ValidSchema doc) : LoopOK doc := by
+  obtain ⟨q, hq, _⟩ := hv.queryType
+  exact ⟨by simp [hq], hv.builtinsNotRedefined.1, hv.builtinsNotRedefined.2, hv.directivesDistinct,
+    hv.scalarsDistinct, ⟨hv.typesDistinct, hv.fieldsDistinct⟩, hv.paramsDistinct⟩
+
 /-- What `NoKnownSchemaTrigger` says, unpacked. -/
 theorem guard_unpack {doc : Doc} (h : NoKnownSchemaTrigger doc = true) :
-    (∃ q qd, doc.schemaBlocks = [q] ∧ findType doc.types q = some qd ∧ qd.isInterface = false) ∧
-    LoopGuard doc ∧ FieldsClean doc.types := by
-  simp only [NoKnownSchemaTrigger, Bool.and_eq_true, List.all_eq_true, Bool.not_eq_true',
-    nodupNames_iff, List.isEmpty_iff] at h
-  obtain ⟨⟨⟨⟨⟨⟨h1, h2⟩, h3⟩, h4⟩, h5⟩, h6⟩, h7⟩ := h
-  refine ⟨?_, ⟨?_, h2, h3, h4, h5, h6⟩, h7⟩
-  · cases hb : doc.schemaBlocks with
-    | nil => simp [hb] at h1
-    | cons q rest =>
-      cases rest with
-      | cons _ _ => simp [hb] at h1
-      | nil =>
-        simp only [hb] at h1
-        cases hf : doc.types.find? (fun t => t.name == q) with
-        | none => simp [hf] at h1
-        | some qd =>
-          simp only [hf, Option.any_some, Bool.not_eq_true'] at h1
-          exact ⟨q, qd, rfl, hf, h1⟩
-  · rcases hb : doc.schemaBlocks with _ | ⟨q, _ | ⟨q2, rest⟩⟩ <;> simp [hb] at h1 ⊢
+    doc.unsupportedNames = [] ∧ FieldsClean doc.types := by
+  simp only [NoKnownSchemaTrigger, Bool.and_eq_true, List.all_eq_true, List.isEmpty_iff] at h
+  exact ⟨h.1, h.2⟩
 
-/-- Under the guard `Schema::new` does not panic, and it accepts iff the type and field names are
-distinct and all checked rules hold. -/
+/-- What an accepting run of `Schema::new` establishes. -/
+structure AcceptedSpec (doc : Doc) (s : Schema) : Prop where
+  vertexTypes : s.vertexTypes = doc.types
+  blocks : doc.schemaBlocks = [s.queryType.name]
+  rootFound : findType doc.types s.queryType.name = some s.queryType
+  rootObject : s.queryType.isInterface = false
+  loopOK : LoopOK doc
+  rules : CheckedRules doc.types s.queryType
+
+/-- Under the guard (no `enum`/`union`/`input` definition, no type with more than 30 list levels)
+`Schema::new` does not panic; it returns `Ok(schema)` — then the first loop's requirements and all
+checked rules hold — or `Err(errors)` with a non-empty error list — then the document is not a
+`ValidSchema`. -/
 theorem schemaNew_spec {doc : Doc} (h : NoKnownSchemaTrigger doc = true) :
-    ∃ q qd, doc.schemaBlocks = [q] ∧ findType doc.types q = some qd ∧ qd.isInterface = false ∧
-      isBuiltin q = false ∧
-      ((∃ s, Schema.new doc = .ok (.ok s) ∧ s.vertexTypes = doc.types ∧ s.queryType = qd ∧
-          Distinct doc.types ∧ CheckedRules doc.types qd) ∨
-       (∃ es, Schema.new doc = .ok (.error es) ∧ ¬ (Distinct doc.types ∧ CheckedRules doc.types qd))) := by
-  obtain ⟨⟨q, qd, hblocks, hq, hqi⟩, hg, hc⟩ := guard_unpack h
-  have hqd := findType_some hq
-  have hqb : isBuiltin q = false := by rw [← hqd.2]; exact hg.typesNotBuiltin qd hqd.1
-  refine ⟨q, qd, hblocks, hq, hqi, hqb, ?_⟩
-  have hloop := runLoop_spec doc [] {} ⟨rfl, rfl, rfl, rfl⟩ (by simpa using hg)
-    ⟨by simp [Doc.types], by simp [Doc.types]⟩
+    (∃ s, Schema.new doc = .ok (.ok s) ∧ AcceptedSpec doc s) ∨
+    (∃ es, Schema.new doc = .ok (.error es) ∧ es ≠ [] ∧ ¬ ValidSchema doc) := by
+  obtain ⟨hun, hc⟩ := guard_unpack h
+  have hloop := runLoop_spec doc [] {} ⟨rfl, rfl, rfl, rfl⟩ LoopOK.nil hun
   simp only [List.nil_append] at hloop
   unfold Schema.new
-  rcases hloop with ⟨e, hl, hnd⟩ | ⟨st, hl, hst, hd⟩
+  rcases hloop with ⟨e, hl, hno⟩ | ⟨st, hl, hst, hok⟩
   · simp only [hl]
-    exact .inr ⟨[e], rfl, fun h' => hnd h'.1⟩
+    exact .inr ⟨[e], rfl, by simp, fun hv => hno (loopOK_of_validSchema hv)⟩
   · simp only [hl]
-    have hs : st.schema = some q := by rw [hst.schema, hblocks]; rfl
-    simp only [hs, hst.vertexTypes, hq, hqi, Bool.false_eq_true, if_false]
-    obtain ⟨errors, origins, hrun, hsome, hiff⟩ := runChecks_spec hd hc hqd.1
-    simp only [hrun]
-    cases errors with
+    have hd := hok.distinct
+    cases hb : doc.schemaBlocks with
     | nil =>
-      have := hsome rfl
-      obtain ⟨o, ho⟩ := Option.isSome_iff_exists.mp this
-      simp only [ho, List.isEmpty_nil, if_true]
-      exact .inl ⟨_, rfl, rfl, rfl, hd, hiff.mp rfl⟩
-    | cons e es =>
-      simp only [List.isEmpty_cons, Bool.false_eq_true, if_false]
-      exact .inr ⟨_, rfl, fun h' => by simpa using hiff.mpr h'.2⟩
+      have hs : st.schema = none := by rw [hst.schema, hb]; rfl
+      simp only [hs]
+      refine .inr ⟨_, rfl, by simp, fun hv => ?_⟩
+      obtain ⟨q, hq, _⟩ := hv.queryType
+      rw [hb] at hq; cases hq
+    | cons q more =>
+      have hmore : more = [] := by
+        have := hok.oneBlock
+        rw [hb] at this
+        cases more with
+        | nil => rfl
+        | cons _ _ => simp at this
+      subst hmore
+      have hs : st.schema = some q := by rw [hst.schema, hb]; rfl
+      simp only [hs, hst.vertexTypes]
+      cases hq : findType doc.types q with
+      | none =>
+        refine .inr ⟨_, rfl, by simp, fun hv => ?_⟩
+        obtain ⟨q', hq', d, hd1, hd2, _⟩ := hv.queryType
+        rw [hb] at hq'; cases hq'
+        exact (findType_eq_none_iff _ _).mp hq ⟨d, hd1, hd2⟩
+      | some qd =>
+        have hqd := findType_some hq
+        cases hqi : qd.isInterface with
+        | true =>
+          simp only [hqi, if_true]
+          refine .inr ⟨_, rfl, by simp, fun hv => ?_⟩
+          obtain ⟨q', hq', d, hd1, hd2, hd3⟩ := hv.queryType
+          rw [hb] at hq'; cases hq'
+          have : d = qd := eq_of_name_eq hd.1 hd1 hqd.1 (by rw [hd2, hqd.2])
+          subst this
+          rw [hqi] at hd3; cases hd3
+        | false =>
+          simp only [hqi, Bool.false_eq_true, if_false]
+          obtain ⟨errors, origins, hrun, hsome, hiff⟩ := runChecks_spec hd hc hqd.1
+          simp only [hrun]
+          cases errors with
+          | nil =>
+            have := hsome rfl
+            obtain ⟨o, ho⟩ := Option.isSome_iff_exists.mp this
+            simp only [ho, List.isEmpty_nil, if_true]
+            exact .inl ⟨_, rfl, ⟨rfl, by rw [hqd.2]; exact hb, by rw [hqd.2]; exact hq, hqi, hok, hiff.mp rfl⟩⟩
+          | cons e es =>
+            simp only [List.isEmpty_cons, Bool.false_eq_true, if_false]
+            refine .inr ⟨_, rfl, by simp, fun hv => ?_⟩
+            have := (rules_of_validSchema hb hq hv).2
+            simpa using hiff.mpr this
+
+/-- An accepted document is a `ValidSchema`. -/
+theorem AcceptedSpec.valid {doc : Doc} {s : Schema} (h : AcceptedSpec doc s) : ValidSchema doc :=
+  validSchema_of_rules h.blocks h.rootFound h.rootObject h.loopOK h.rules
+
+
+/-! ### What every accepted schema has, without any guard: distinct parameter names (F-C10-5) -/
+
+/-- Every field of every type has distinct parameter names. -/
+def ParamsNodup (vts : List TypeDef) : Prop :=
+  ∀ t ∈ vts, ∀ f ∈ t.fields, (f.args.map (·.name)).Nodup
+
+theorem loopStep_paramsNodup {st st' : LoopState} {d : Def} (h : loopStep st d = .ok (.ok st'))
+    (hp : ParamsNodup st.vertexTypes) : ParamsNodup st'.vertexTypes := by
+  cases d with
+  | schema q => simp only [loopStep] at h; split at h <;> cases h; exact hp
+  | directive n => simp only [loopStep] at h; split at h <;> cases h; exact hp
+  | scalar n =>
+    simp only [loopStep] at h
+    split at h
+    · cases h
+    · split at h <;> cases h; exact hp
+  | unsupported n => simp only [loopStep] at h; split at h <;> cases h
+  | type t =>
+    simp only [loopStep] at h
+    split at h
+    · cases h
+    · split at h
+      · cases h
+      · split at h
+        · cases h
+        · rename_i hf
+          cases h
+          intro x hx
+          rcases List.mem_append.mp hx with hx | hx
+          · exact hp x hx
+          · simp at hx; subst hx
+            exact ((firstFieldErr_none_iff _ [] _).mp hf).2
+
+theorem runLoop_paramsNodup : ∀ (doc : Doc) (st st' : LoopState), runLoop st doc = .ok (.ok st') →
+    ParamsNodup st.vertexTypes → ParamsNodup st'.vertexTypes := by
+  intro doc
+  induction doc with
+  | nil => intro st st' h hp; simp [runLoop] at h; subst h; exact hp
+  | cons d ds ih =>
+    intro st st' h hp
+    unfold runLoop at h
+    split at h
+    · cases h
+    · cases h
+    · rename_i st1 hstep
+      exact ih st1 st' h (loopStep_paramsNodup hstep hp)
+
+/-- The `vertex_types` of the schema `Schema::new` returns are those the first loop collected. -/
+theorem new_ok_loop {doc : Doc} {s : Schema} (h : Schema.new doc = .ok (.ok s)) :
+    ∃ st, runLoop {} doc = .ok (.ok st) ∧ s.vertexTypes = st.vertexTypes := by
+  unfold Schema.new at h
+  split at h
+  · cases h
+  · cases h
+  · rename_i st hl
+    refine ⟨st, hl, ?_⟩
+    split at h
+    · cases h
+    · split at h
+      · cases h
+      · split at h
+        · cases h
+        · split at h
+          · cases h
+          · split at h
+            · split at h
+              · cases h
+              · cases h; rfl
+            · cases h
+
+/-- **Every** schema `Schema::new` returns — no guard — has distinct parameter names per field: the
+frontend's assumption in `make_edge_parameters` ("Duplicates should have been caught at parse time"). -/
+theorem new_ok_paramsNodup {doc : Doc} {s : Schema} (h : Schema.new doc = .ok (.ok s)) :
+    ParamsNodup s.vertexTypes := by
+  obtain ⟨st, hl, hv⟩ := new_ok_loop h
+  rw [hv]
+  exact runLoop_paramsNodup doc {} st hl (by intro t ht; cases ht)
 
 
 end TF.SchemaDoc
